@@ -1,2 +1,2 @@
-import AslModel.Lemmas.PFile
-import AslModel.Model.CodeFile
+import AslModel.Props.C04
+import AslModel.Props.C02
